@@ -11,6 +11,10 @@ import (
 	"github.com/go-git/go-git/v6/utils/binary"
 )
 
+// maxObjectsPrealloc caps the capacity reserved from the pack header's object
+// count, which is read before any object and may be arbitrarily wrong.
+const maxObjectsPrealloc = 1 << 16
+
 // objects implements sort.Interface and uses hash as sorting key.
 type objects []Entry
 
@@ -69,7 +73,9 @@ func (w *Writer) Finished() bool {
 // OnHeader implements packfile.Observer interface.
 func (w *Writer) OnHeader(count uint32) error {
 	w.count = count
-	w.objects = make(objects, 0, count)
+	// count comes unverified from the pack header: cap the up-front allocation,
+	// append grows the slice for packs that really hold more objects.
+	w.objects = make(objects, 0, min(count, maxObjectsPrealloc))
 	return nil
 }
 
